@@ -188,3 +188,69 @@ func ZZ_C01_H3() {
 	zz.Assert("body-is-concatenation-of-chunks", bytes.Equal(r.bodies[0], want))
 	zz.Assert("next-request-starts-after-trailer", r.seen[1].method == "GET" && r.seen[1].uri == "/s" && len(r.bodies[1]) == 0)
 }
+
+func zzItoa(n int) []byte {
+	if n == 0 {
+		return []byte("0")
+	}
+	var b []byte
+	for n > 0 {
+		b = append([]byte{byte('0' + n%10)}, b...)
+		n /= 10
+	}
+	return b
+}
+
+// ZZ_C01_BIG: fixed-length and chunked bodies whose lengths sit around the connection's buffer
+// boundaries (4 KiB, 8 KiB; symbolic bytes at the boundaries), delivered whole or in 1000-,
+// 4096- or 5000-byte reads, buffered and streaming: the handler sees exactly the body, and the
+// pipelined request behind it is handled intact.
+func ZZ_C01_BIG() {
+	base := []int{4096, 8192}[zz.Choose("base", 2)]
+	n := base + zz.Range("delta", -1, 1)
+	chunked := zz.Choose("chunked", 2) == 1
+	stream := zz.Choose("stream", 2) == 1
+	frag := []int{0, 1000, 4096, 5000}[zz.Choose("frag", 4)]
+	body := make([]byte, n)
+	for i := range body {
+		body[i] = byte('a' + i%26)
+	}
+	sym := zz.Bytes("boundarybytes", 3)
+	body[0], body[n/2], body[n-1] = sym[0], sym[1], sym[2]
+	var wire []byte
+	if !chunked {
+		wire = append([]byte("POST /b HTTP/1.1\r\nHost: h\r\nContent-Length: "), zzItoa(n)...)
+		wire = append(wire, "\r\n\r\n"...)
+		wire = append(wire, body...)
+	} else {
+		wire = []byte("POST /b HTTP/1.1\r\nHost: h\r\nTransfer-Encoding: chunked\r\n\r\n")
+		// two chunks: 4000 bytes and the rest
+		first := 4000
+		hex := func(v int) []byte {
+			const d = "0123456789abcdef"
+			var b []byte
+			for v > 0 {
+				b = append([]byte{d[v%16]}, b...)
+				v /= 16
+			}
+			return b
+		}
+		wire = append(wire, hex(first)...)
+		wire = append(wire, "\r\n"...)
+		wire = append(wire, body[:first]...)
+		wire = append(wire, "\r\n"...)
+		wire = append(wire, hex(n-first)...)
+		wire = append(wire, "\r\n"...)
+		wire = append(wire, body[first:]...)
+		wire = append(wire, "\r\n0\r\n\r\n"...)
+	}
+	wire = append(wire, zzSentinel...)
+	r := zzRun(wire, frag, stream, nil)
+	zz.Cover("reached-assert", true)
+	zz.Assert("two-handler-calls", len(r.seen) == 2)
+	if len(r.seen) != 2 {
+		return
+	}
+	zz.Assert("body-is-exactly-the-framed-bytes", bytes.Equal(r.bodies[0], body))
+	zz.Assert("next-request-intact", r.seen[1].method == "GET" && r.seen[1].uri == "/s" && len(r.bodies[1]) == 0)
+}
